@@ -272,4 +272,12 @@ pub fn run(run: &Run) {
     let n = progs.len() as u64 + n_stress(run.tier);
     crate::sup::run_cases(run, "C13", n, 1, &|idx| (format!("case{}", idx), json!({"idx": idx})));
     run.add("programs", progs.len() as u64);
+    if !run.quick() {
+        crate::lanes::miri(run, "threads", &[1], Some(16));
+        // ThreadSanitizer lane over the free-running stress rounds (the controlled schedules serialise the threads, nothing to race)
+        if let Some(exe) = crate::lanes::build(run, "tsan") {
+            crate::sup::run_cases_lane(run, "C13", progs.len() as u64, progs.len() as u64 + 120, 1, &|idx| (format!("case{}", idx), json!({"idx": idx})), &crate::lanes::env_for("tsan", &exe), "tsan");
+            run.add("tsan_lane_rounds", 120);
+        }
+    }
 }
